@@ -50,7 +50,8 @@ REVIEWED_BRANCHES = {
 class CTChecker(Taint):
     """Taint analysis that records constant-time violations"""
 
-    def __init__(self, eng, fn, positions, depth, prim=False, ct_set=None):
+    def __init__(self, eng, fn, positions, depth, prim=False, ct_set=None, nest=0):
+        self.nest = nest
         self.prim = prim
         self.ct_set = ct_set or set()
         # in the function under test a secret-dependent branch is reported itself; implicit flows are only
@@ -96,6 +97,12 @@ class CTChecker(Taint):
                     cond = ir.peel(fn, t["c"])
                     # reviewed value tests on group elements
                     calls = [c[1] for c in ir.calls_in(fn, cond, True)]
+                    if isinstance(cond, list) and cond and cond[0] == "v" and fn.vars[cond[1]].get("k") == "l":
+                        # the test held in a local that is assigned once (const int z = f(..); if (z) ..)
+                        defs = [sub for el in fn.all_elements() for sub in ir.walk(fn, el.e)
+                                if (sub[0] == "d" and sub[1] == cond[1] and sub[2] is not None) or (sub[0] == "=" and ir.strip_casts(sub[1]) == cond)]
+                        if len(defs) == 1:
+                            calls += [c[1] for c in ir.calls_in(fn, defs[0][2], True)]
                     if any((fn.name, c) in REVIEWED_BRANCHES for c in calls):
                         continue
                     if t["k"] == "ConditionalOperator" and self.const_select(t["c"]):
@@ -131,7 +138,16 @@ class CTChecker(Taint):
                             if not PRIMS.match(sub[1]):
                                 self.viol("call", n, "secret data passed to `%s`, which is not a constant-time primitive" % sub[1])
                         elif SCALAR_OPS.match(sub[1]) and sub[1] not in self.ct_set and self.has_output(sub[1]):
-                            self.viol("delegate", n, "secret scalar handed to `%s`, which is not a regular / constant-time routine" % sub[1])
+                            helper = self.eng.prog.get(sub[1], near=fn)
+                            if helper is not None and helper.static and helper.rfile == fn.rfile and self.nest < 2 and helper is not fn:
+                                # a static helper of this file (a block moved out of the routine): what it does with the
+                                # secret is judged as if it stood here
+                                pos = [i for i, a in enumerate(sub[2]) if i < len(helper.params) and self.tainted(a, st)]
+                                inner = CTChecker(self.eng, helper, pos, self.depth, prim=False, ct_set=self.ct_set, nest=self.nest + 1)
+                                for kind, node2, text in inner.violations:
+                                    self.viol(kind, n, text)
+                            else:
+                                self.viol("delegate", n, "secret scalar handed to `%s`, which is not a regular / constant-time routine" % sub[1])
 
 
 def rule_prims(ctx, prog, chk, eng):
